@@ -1,5 +1,6 @@
 (** * C16 — Legend entries become CSS rules and {tags} style the enclosing shape.
     Statements only; proofs in Theory/LegendTheory.v and Theory/TagTheory.v. *)
+Require Import SB.Theory.BoxDefs SB.Theory.TagSweep SB.Theory.TagCircle.
 Require Import SB.Model.Base SB.Model.Unicode SB.Model.Geom SB.Model.Text SB.Model.Tree SB.Model.Svg SB.Model.Lib
   SB.Theory.LegendTheory SB.Theory.TagTheory.
 From Coq Require Import String.
@@ -75,10 +76,36 @@ Theorem C16_other_text_unaffected :
     /\ adds (fragments_of_tree t') (fragments_of_tree t) (fragments_of_tree o).
 Proof. exact enclose_plain. Qed.
 
-(** The innermost-shape clause ("the deepest rect or circle containing the tag receives the
-    names") is proved in the form: children are offered the tag before their parent
-    ([enclose_unfold]); that the emitted order puts enclosing shapes before enclosed ones is
-    covered by the correspondence and the oracle of this check, not by a theorem. *)
+(** The innermost-shape clause.  Children are offered the tag before their parent ([enclose_unfold], next theorem),
+    and therefore the node that takes a tag is an innermost one: [receives o tg t t'] says that [t'] is [t] with the
+    names appended to the class names of ONE node N such that the tag fits inside N, fits inside no node below N (no
+    shape nested in N contains it) and fits in no subtree that precedes N's branch; nothing else of the tree changes.
+    For every tree and every tag. *)
+Theorem C16_tag_goes_to_an_innermost_node :
+  forall t o t', frag_css_tag (ft_frag o) <> [] -> enclose_deep_first t o = Some t' ->
+    receives (ft_frag o) (frag_css_tag (ft_frag o)) t t'.
+Proof. exact enclose_tag_innermost. Qed.
+
+(** That the pass meets the shapes before the tag, so that the nesting exists when the tag arrives, is a property of the
+    emitted order of the whole recognition; on nested boxes it is decided here by a sweep of the whole model from the cells
+    to the (fragment, class names) list the document is made of ([tagged_fragments]: recognition, then the enclosure pass
+    over all accepted fragments in their emitted order).  [tcases]: outer and inner box sharp or rounded, inner interior
+    3..4 x 1..2 at interior offset 1..2 x 0..1 of the outer box, the tag {a} at every position of the inner interior
+    where it fits, including flush against the right wall (repair F14).  [inside_chk]: exactly two fragments come out,
+    the outer rectangle without names and the inner one named a; the tag is not rendered.  [outside_chk]: with the tag
+    to the right of both boxes, three fragments: the two rectangles without names and the tag as text. *)
+Theorem C16_nested_boxes_name_the_inner_one :
+  forall k, In k tcases -> inside_chk k = true /\ outside_chk k = true.
+Proof. exact nested_tag. Qed.
+(** ... and in circles: for every circle of the catalogue and every place where the tag {a} has room inside it without
+    touching the drawing ([tag_places], 547 places in the 12 largest circles), exactly one fragment comes out: that
+    circle, named a; the tag is not rendered. *)
+Theorem C16_tag_in_a_circle_names_it :
+  forall ep, In ep tag_places -> circle_tag_chk ep = true.
+Proof. exact tag_in_circle. Qed.
+Example C16_tcases_nonvacuous : List.length tcases = 144%nat.
+Proof. vm_compute. reflexivity. Qed.
+
 Theorem C16_children_first :
   forall f tags kids o,
     enclose_deep_first (FT f tags kids) o =
